@@ -140,20 +140,25 @@ func vExtGate(out *vOut, r *vRand, n int) {
 				obs = append(obs, "OExt "+vBool(got))
 				out.Stat(fmt.Sprintf("extgate.must_refuse_%v", got), 1)
 				if got != expect {
-					out.Oracle("extension-mustrefuse-iff-soft", fmt.Sprintf("CGate %s (Some %s) %s %s", vCfg(cfg), vU(total), vList(ops), vList(obs)),
+					out.Oracle("extension-mustrefuse-iff-soft", fmt.Sprintf("(CGate %s (Some %s) %s %s)", vCfg(cfg), vU(total), vList(ops), vList(obs)),
 						fmt.Sprintf("limit=%d spike=%d expected=%v got=%v", limit, spike, expect, got))
 				}
 			}
 		}
-		out.Case(true, fmt.Sprintf("CGate %s (Some %s) %s %s", vCfg(cfg), vU(total), vList(ops), vList(obs)))
+		out.Case(true, fmt.Sprintf("(CGate %s (Some %s) %s %s)", vCfg(cfg), vU(total), vList(ops), vList(obs)))
 	}
 }
 
-func vChecking(cnt *atomic.Int64, expectHint bool) bool {
+func vChecking(cnt *atomic.Int64, expectHint bool, afterRestart ...bool) bool {
 	c0 := cnt.Load()
 	window := 15 * time.Millisecond
 	if expectHint {
 		window = 5 * time.Second
+		if len(afterRestart) > 0 && afterRestart[0] {
+			// regression region of the repaired defect C18-RESTART: still >1000 ticker periods, but a
+			// tree that reverts the fix does not cost 5 s per operation
+			window = 1500 * time.Millisecond
+		}
 	}
 	dl := time.Now().Add(window)
 	for time.Now().Before(dl) {
@@ -205,10 +210,10 @@ func vExtLife(out *vOut) {
 						gor = true
 					}
 				}
-				checking := vChecking(&x.cnt, users > 0 && restarts == 0)
+				checking := vChecking(&x.cnt, users > 0, restarts > 0)
 				ops = append(ops, vBool(start))
 				obs = append(obs, fmt.Sprintf("(%s, %s, %s, %s)", vBool(e != nil), vZ(rc), vBool(gor), vBool(checking)))
-				term := fmt.Sprintf("CLife %s %s", vList(ops), vList(obs))
+				term := fmt.Sprintf("(CLife %s %s)", vList(ops), vList(obs))
 				switch {
 				case users == 0 && checking:
 					out.Oracle("checker-runs-without-users", term, fmt.Sprintf("users=%d restarts=%d", users, restarts))
@@ -218,10 +223,10 @@ func vExtLife(out *vOut) {
 					out.Oracle("checker-dead-after-restart", term, fmt.Sprintf("users=%d restarts=%d checking=0", users, restarts))
 				}
 			}
-			for x.ml.Shutdown(context.Background()) == nil {
+			for k := 0; k < 64 && x.ml.Shutdown(context.Background()) == nil; k++ {
 			}
 			x.stopTicker()
-			out.Case(users > 0 || everStopped, fmt.Sprintf("CLife %s %s", vList(ops), vList(obs)))
+			out.Case(users > 0 || everStopped, fmt.Sprintf("(CLife %s %s)", vList(ops), vList(obs)))
 			out.Stat("extlife.sequences", 1)
 		}
 	}
